@@ -74,6 +74,12 @@ func c07Routes() []c07Route {
 			mk("twice-mixed:"+f, "{{ v|e|escape|raw }}", nil, "", ""),
 			mk("twice-apply:"+f, "{% apply "+f+" %}{{ v|"+f+" }}{% endapply %}", nil, "", ""),
 			mk("twice-set:"+f, "{% set y = v|"+f+" %}{{ y|"+f+" }}", nil, "", ""),
+			// inside `include … sandboxed` under the library's own default policy (both names are on its list): the two names
+			// stay interchangeable in every position of a chain
+			mk("sandbox-print:"+f, "{% include 'inc' sandboxed %}", map[string]string{"inc": "{{ v|" + f + " }}"}, "", ""),
+			mk("sandbox-chain:"+f, "{% include 'inc' sandboxed %}", map[string]string{"inc": "{{ v|" + f + "|raw }}"}, "", ""),
+			mk("sandbox-apply:"+f, "{% include 'inc' sandboxed %}", map[string]string{"inc": "{% apply " + f + " %}{{ v }}{% endapply %}"}, "", ""),
+			mk("sandbox-arg:"+f, "{% include 'inc' sandboxed %}", map[string]string{"inc": "{{ nosuchvar|default(v|" + f + ")|raw }}"}, "", ""),
 			// the same apply block entered again while it is being rendered (recursive macro, self-including template)
 			mk("apply-reentrant-macro:"+f, "{% macro rec(x, n, y) %}{% apply "+f+" %}[{{ x }}{% if n > 0 %}{{ _self.rec('i', n - 1, 'j') }}{% endif %}{{ y }}]{% endapply %}{% endmacro %}{{ _self.rec(v, 1, 'z') }}", nil, "[", "[ij]z]"),
 			mk("apply-reentrant-include:"+f, "{% include 'inc' with {'x': v, 'n': 1, 'y': 'z'} %}",
@@ -91,7 +97,11 @@ type c07Engine struct {
 func c07Build() ([]c07Engine, error) {
 	var out []c07Engine
 	for _, r := range c07Routes() {
-		e, err := newEngine(r.tpls)
+		var opts []EngineOpt
+		if strings.HasPrefix(r.name, "sandbox-") {
+			opts = append(opts, func(e *twig.Engine) { e.EnableSandbox(twig.NewDefaultSecurityPolicy()) })
+		}
+		e, err := newEngine(r.tpls, opts...)
 		if err != nil {
 			return nil, fmt.Errorf("route %s: %w", r.name, err)
 		}
